@@ -10,7 +10,7 @@ for f in ("patch.diff", "demo.py", "notes.md"):
         shutil.copy(os.path.join(src, f), os.path.join(dst, f))
 meta = {"id": sid, "property": prop, "origin": "independent sub-agent given only the property text and a scratch worktree",
         "needs_to_manifest": needs,
-        "confirmed": "tools/verify_seeded.sh: pinned test suite unchanged with the patch (121 passed, 1 pre-existing failure); demo.py exits 1 with the patch and 0 without",
+        "confirmed": "tools/verify_seeded.sh: existing test suite gives the same result with the patch as without (122 passed at the time); demo.py exits 1 with the patch and 0 without",
         "caught_by": [c for c in caught.split(",") if c],
         "how_run": "tools/mutant.sh seeded/%s/patch.diff <ID> (scratch copy of /repo outside /repo and /verif, removed afterwards)" % sid}
 json.dump(meta, open(os.path.join(dst, "meta.json"), "w"), indent=1)
